@@ -233,50 +233,84 @@ func rulePlumbing(c *Ctx, rule, class string) {
 				continue
 			}
 			where = posOf(w, f)
-			w.instrsThroughHelpers(f, func(in ssa.Instruction) { // the loop may live in a helper shared by the constructors
-				switch x := in.(type) {
-				case *ssa.Call:
-					// opt.apply(&holder.G) for every element of the option list parameter
-					if !x.Call.IsInvoke() || len(x.Call.Args) != 1 {
-						return
-					}
-					if r, _, isF := fieldOfAddr(origin(x.Call.Args[0])); !isF || r != g {
-						return
-					}
-					if !inLoop(x.Block()) {
-						return
-					}
-					// the receiver is an element of a slice parameter of f
-					el := origin(x.Call.Value)
-					if u, isU := el.(*ssa.UnOp); isU {
-						if ia, isIA := u.X.(*ssa.IndexAddr); isIA {
-							if p, isP := origin(ia.X).(*ssa.Parameter); isP && p.Parent() == f {
-								filled = true
-							}
+			appliedTo := map[*ssa.Alloc]bool{}
+			for pass := 0; pass < 2 && !filled; pass++ { // (the apply loop may come after the store in instruction order)
+				w.instrsThroughHelpers(f, func(in ssa.Instruction) { // the loop may live in a helper shared by the constructors
+					switch x := in.(type) {
+					case *ssa.Call:
+						// opt.apply(&holder.G) for every element of the option list parameter
+						if !x.Call.IsInvoke() || len(x.Call.Args) != 1 {
+							return
 						}
-					}
-				case *ssa.Store:
-					// holder.G.flag = options.Flag (checked in detail by the supported-revisions rule)
-					if fa, isFA := x.Addr.(*ssa.FieldAddr); isFA {
-						if r, _, isF := fieldOfAddr(fa.X); isF && r == g {
-							if _, _, isL := loadedField(origin(x.Val)); isL {
-								filled = true
-							}
+						target := origin(x.Call.Args[0])
+						tmp, isTmp := target.(*ssa.Alloc) // a local options value (returned and stored into the holder's field)
+						if r, _, isF := fieldOfAddr(target); (!isF || r != g) && !isTmp {
+							return
 						}
-					}
-					// holder.G = optionsType{flag: options.Flag}: the nested literal is built in a local and copied
-					if r, _, isF := fieldOfAddr(x.Addr); isF && r == g {
-						if u, isU := stripConv(x.Val).(*ssa.UnOp); isU {
-							if tmp, isAl := u.X.(*ssa.Alloc); isAl {
-								for _, ref := range *tmp.Referrers() {
-									fa, isFA := ref.(*ssa.FieldAddr)
-									if !isFA {
-										continue
+						if !inLoop(x.Block()) {
+							return
+						}
+						// the receiver is an element of a slice parameter of f
+						el := origin(x.Call.Value)
+						if u, isU := el.(*ssa.UnOp); isU {
+							if ia, isIA := u.X.(*ssa.IndexAddr); isIA {
+								if p, isP := origin(ia.X).(*ssa.Parameter); isP && p.Parent() == f {
+									if isTmp {
+										appliedTo[tmp] = true
+									} else {
+										filled = true
 									}
-									for _, ref2 := range *fa.Referrers() {
-										if st2, isSt := ref2.(*ssa.Store); isSt && st2.Addr == ssa.Value(fa) {
-											if _, _, isL := loadedField(origin(st2.Val)); isL {
-												filled = true
+								}
+							}
+						}
+					case *ssa.Store:
+						// holder.G.flag = options.Flag (checked in detail by the supported-revisions rule)
+						if fa, isFA := x.Addr.(*ssa.FieldAddr); isFA {
+							if r, _, isF := fieldOfAddr(fa.X); isF && r == g {
+								if _, _, isL := loadedField(origin(x.Val)); isL {
+									filled = true
+								}
+							}
+						}
+						// holder.G = optionsType{flag: options.Flag}: the nested literal is built in a local and copied (here, or in a
+						// conversion helper whose result is stored: options.tunnelOpts()); or holder.G = collect(opts): a local
+						// options value to which every element of the option list was applied
+						if r, _, isF := fieldOfAddr(x.Addr); isF && r == g {
+							var srcs []*ssa.Alloc // the local options value(s) the stored value is a copy of
+							if u, isU := origin(x.Val).(*ssa.UnOp); isU {
+								if tmp, isAl := u.X.(*ssa.Alloc); isAl {
+									srcs = append(srcs, tmp)
+								}
+							}
+							if hc, isHC := origin(x.Val).(*ssa.Call); isHC {
+								if h := helperCallee(hc); h != nil {
+									for _, hr := range returnsOf(h) {
+										if len(hr.Results) == 0 {
+											continue
+										}
+										if u, isU := stripConv(hr.Results[0]).(*ssa.UnOp); isU {
+											if tmp, isAl := u.X.(*ssa.Alloc); isAl {
+												srcs = append(srcs, tmp)
+											}
+										}
+									}
+								}
+							}
+							for _, tmp := range srcs {
+								{
+									if appliedTo[tmp] {
+										filled = true
+									}
+									for _, ref := range *tmp.Referrers() {
+										fa, isFA := ref.(*ssa.FieldAddr)
+										if !isFA {
+											continue
+										}
+										for _, ref2 := range *fa.Referrers() {
+											if st2, isSt := ref2.(*ssa.Store); isSt && st2.Addr == ssa.Value(fa) {
+												if _, _, isL := loadedField(origin(st2.Val)); isL {
+													filled = true
+												}
 											}
 										}
 									}
@@ -284,8 +318,8 @@ func rulePlumbing(c *Ctx, rule, class string) {
 							}
 						}
 					}
-				}
-			})
+				})
+			}
 		}
 		c.check(filled, rule, g.String()+": filled from the caller's options", where, "every supplied option is applied to "+g.String(), "the constructor of "+g.Type+" does not apply the options it is given to "+g.String()+" (no apply call on each element of the option list with that field's address, no copy from its options struct): "+cl.effect)
 	}
@@ -492,4 +526,58 @@ func plumbKept(c *Ctx, rule string, ct plumbCtor, cl plumbClass) (in ctorInput, 
 	}
 	c.check(okOnly, rule, ct.role+": "+fr.String()+" holds only that input", at, "single assignment from "+in.Name, fr.String()+" is also assigned something other than the constructor's input: "+cl.effect)
 	return in, fr, "", true
+}
+
+// inputOf: the input of fn (a parameter, or a field of a struct parameter passed by value) that v is; nil if none.
+func inputOf(fn *ssa.Function, v ssa.Value) *ctorInput {
+	if fn == nil || v == nil {
+		return nil
+	}
+	for _, in := range ctorInputs(fn) {
+		if isInputValue(v, in) {
+			in := in
+			return &in
+		}
+	}
+	return nil
+}
+
+// suppliedBy: the values supplied for input `in` of fn at the static call sites that lie in `entry`, following functions in
+// between that merely pass one of their own inputs on (whole parameters, fields of bundles, or a whole bundle forwarded).
+func (w *World) suppliedBy(fn *ssa.Function, in ctorInput, entry *ssa.Function, depth int) []ssa.Value {
+	var out []ssa.Value
+	if depth > 4 {
+		return nil
+	}
+	for _, site := range w.callSitesOf(fn) {
+		if staticCallee(site) == nil || in.Idx >= len(site.Common().Args) {
+			continue
+		}
+		caller := topFn(site.Parent())
+		arg := argAt(site, in)
+		if arg == nil && in.Field >= 0 {
+			// the whole bundle is the caller's own bundle, forwarded
+			whole := site.Common().Args[in.Idx]
+			for _, cin := range ctorInputs(caller) {
+				if cin.Field == in.Field && isWholeParam(whole, cin.P) && types.Identical(cin.P.Type(), in.P.Type()) {
+					if w.sameFn(caller, entry) {
+						continue
+					}
+					out = append(out, w.suppliedBy(caller, cin, entry, depth+1)...)
+				}
+			}
+			continue
+		}
+		if arg == nil {
+			continue
+		}
+		if w.sameFn(caller, entry) {
+			out = append(out, arg)
+			continue
+		}
+		if cin := inputOf(caller, arg); cin != nil {
+			out = append(out, w.suppliedBy(caller, *cin, entry, depth+1)...)
+		}
+	}
+	return out
 }
